@@ -909,6 +909,11 @@ def option_method(engine, st, method, args, dest_ty):
             if isinstance(iv, ArcV):
                 inner_ref = RefV(iv.cell, 0)
         return EnumV(dest_ty or 'Option', o.discr, {1: [inner_ref]})
+    if method in ('or', 'or_else'):
+        some = engine.split_bool(st, opt_is_some(o))
+        if some:
+            return EnumV(dest_ty or o.ty or 'Option', 1, {1: [o.payload[1][0]]})
+        return args[1] if method == 'or' else engine.call_closure(st, args[1], [])
     if method in ('unwrap_or', 'unwrap_or_default', 'unwrap_or_else'):
         some = opt_is_some(o)
         if z3.is_true(some):
